@@ -100,7 +100,9 @@ def c08(ctx):
     _g(ctx, verify.run, kinds=['matcher'], opmap=False, simtable=False)
     _g(ctx, mask.run, candset=True, matcher=True)
     _g(ctx, split.run, table=False)
-    _g(ctx, sides.run, only=('py_stringsimjoin/utils/missing_value_handler.py',))
+    # ... and every caller hands the generator its own side's table, key, join attribute and output attributes
+    _g(ctx, sides.run, only=('py_stringsimjoin/utils/missing_value_handler.py',),
+       callees=('py_stringsimjoin/utils/missing_value_handler.py',))
 
 
 def c09(ctx):
@@ -120,6 +122,9 @@ def c10(ctx):
     _g(ctx, effect.run, mutations=False, globals_=True, labels=True)
     _g(ctx, wire.run, ordering=True, same=False, rows=False, arrays=True, measure=False)
     _g(ctx, once.run, which=[], extrema=True)
+    # 'repeating the call': an entry point that leaves the caller's tokenizer in another mode than it found it makes the
+    # next call with that tokenizer (any entry point) return something else
+    _g(ctx, flag.run, f4=False)
 
 
 def c11(ctx):
@@ -253,7 +258,7 @@ TECHNIQUE = {
     'C08': 'static analysis: row-layout abstract interpretation incl. missing-value handler and cross-frame headers',
     'C09': 'static analysis: path conditions of the empty branch compared as Boolean functions; provenance of the '
            'empty-record list; decision tables of filter_pair',
-    'C10': 'static analysis: twin-call argument comparison, symbolic contiguity of split_table, CFG dominance of _id',
+    'C10': 'static analysis: twin-call argument comparison, symbolic contiguity of split_table, CFG dominance of _id, tokenizer-flag typestate',
     'C11': 'static analysis: row-layout abstract interpretation (cells aligned with header cells by side/attribute)',
     'C12': 'static analysis: typestate abstract interpretation of the tokenizer flag over the CFG + '
            'interprocedural raise-guard refutation',
